@@ -77,7 +77,9 @@ func USES(tier string, f func(Case)) {
 	if tier == "thorough" {
 		types = append(types, "OWN:t") // spelled with the defining module's own prefix: binds like the bare name
 	}
-	defSites := []string{"a-top", "a-container", "as-top", "b-top"}
+	// split: g in submodule as, g2 (used by some bodies of g) at the top of a, g3 (used by g2) in a
+	// second submodule as2; split-inc: the same with as including its sibling as2
+	defSites := []string{"a-top", "a-container", "as-top", "b-top", "split", "split-inc"}
 	sites := usesSites()
 	for _, T := range types {
 		for bi, body0 := range usesBodies(T) {
@@ -106,6 +108,7 @@ func USES(tier string, f func(Case)) {
 						a := &ir.Mod{Name: "a", Includes: []string{"as"}, Imports: []string{"b"}}
 						as := &ir.Mod{Name: "as", Owner: "a", Imports: []string{"b"}}
 						b := &ir.Mod{Name: "b", Imports: []string{"a"}}
+						as2 := &ir.Mod{Name: "as2", Owner: "a", Imports: []string{"b"}}
 						a.Body = append(a.Body, ir.Typedef("t", "int8"))
 						b.Body = append(b.Body, ir.Typedef("t", "int16"))
 						var kids []*ir.S
@@ -134,6 +137,15 @@ func USES(tier string, f func(Case)) {
 						case "b-top":
 							b.Body = append(b.Body, g, g2, g3)
 							name["a"], name["as"], name["b"] = "b:g", "b:g", "g"
+						case "split", "split-inc":
+							as.Body = append(as.Body, g)
+							a.Body = append(a.Body, g2)
+							as2.Body = append(as2.Body, g3)
+							a.Includes = []string{"as", "as2"}
+							if ds == "split-inc" {
+								as.Includes = []string{"as2"}
+							}
+							name["a"], name["as"], name["b"] = "g", "g", "a:g"
 						}
 						var used [][2]string
 						if ds == "a-container" {
@@ -160,13 +172,13 @@ func USES(tier string, f func(Case)) {
 								used = append(used, [2]string{s2.mod, s2.node})
 							}
 						}
-						if T != "string" && ds == "as-top" {
+						if T != "string" && (ds == "as-top" || has(ds, "split")) {
 							flags["submodule-uses-owner-definition"] = true // type t of the owner referenced from the submodule
 						}
 						variant := ""
 						switch (bi + si + sj) % 4 {
 						case 1: // every module carries a revision: registered under name and name@revision
-							a.Rev, as.Rev, b.Rev = "2020-01-01", "2019-05-05", "2021-02-02"
+							a.Rev, as.Rev, as2.Rev, b.Rev = "2020-01-01", "2019-05-05", "2018-03-03", "2021-02-02"
 							variant = " revisions"
 						case 2: // the submodule knows module b under a prefix of its own
 							if ds == "b-top" && (s1.mod == "as" || s2.mod == "as") {
@@ -179,6 +191,9 @@ func USES(tier string, f func(Case)) {
 							}
 						}
 						w := ir.NewWorld(a, as, b)
+						if has(ds, "split") {
+							w = ir.NewWorld(a, as, as2, b)
+						}
 						f(Case{Desc: fmt.Sprintf("T=%s body#%d def=%s uses=%s,%s%s", T, bi, ds, s1.id, s2.id, variant), W: w, Flags: flags, Sites: used})
 					}
 				}
